@@ -640,7 +640,7 @@ func TestCheck(t *testing.T) {
 	r := mon.Start(t, "C09")
 	defer r.Finish()
 	r.SpinWatch(memwire.BytesMoved)
-	r.Note("rule", "(1) the real padBurst for (tail, target) pairs: thorough = all 1448 tails x 1449 targets plus tails beyond one segment, quick = all targets x 64 tails incl. edges; oracle = modular padding rule (ending on target, or on target+21 when the needed padding does not exceed a 21-byte header). (2) real client <-> real server per (IAT mode 0/1/2) x (biased/uniform) x seeds: PRNG seeds plus searched seeds whose table is single-valued ({0}, {10}, {210}, {1365}, {1448}), contains 0 ({356,0}, {108,0}) or has 100 values; application writes of sizes {0,1,2,100,1426..1428,2853..2855,4096,8192,23168,65536,PRNG<=3000}, every size 0..3000 once for one seed; each wire write attributed to its application Write; judged against the table the harness derives from the same seed with the real probdist; client bursts are judged against the server's table only after the client delivered server payload; a Write that exceeds a byte budget of 4 MiB + 64 x size is reported as not terminating. (2b) late seed: the server->client direction is delivered in 64-byte reads and what is left after the handshake is held back, so the client adopts the server's seed while its application is already writing (released after 0, 1, 2 or 5 client writes); client bursts that begin after server payload was delivered are judged against the server's table. (3) a reference receiver decodes real client frames and checks their sizes. Non-trivial = a connection on which bursts were judged; distinct = parameter tuple.")
+	r.Note("rule", "(1) the real padBurst for (tail, target) pairs: thorough = all 1448 tails x 1449 targets plus tails beyond one segment, quick = all targets x 64 tails incl. edges; oracle = modular padding rule (ending on target, or on target+21 when the needed padding does not exceed a 21-byte header). (2) real client <-> real server per (IAT mode 0/1/2) x (biased/uniform) x seeds: PRNG seeds plus searched seeds whose table is single-valued ({0}, {10}, {210}, {1365}, {1448}), contains 0 ({356,0}, {108,0}) or has 100 values; application writes of sizes {0,1,2,100,1426..1428,2853..2855,4096,8192,23168,65536,PRNG<=3000}, every size 0..3000 once for one seed; each wire write attributed to its application Write; judged against the table the harness derives from the same seed with the real probdist; client bursts are judged against the server's table only after the client delivered server payload; a Write that exceeds a byte budget of 4 MiB + 64 x size is reported as not terminating. (2b) late seed: the server->client direction is delivered in 64-byte reads and what is left after the handshake is held back, so the client adopts the server's seed while its application is already writing (released after 0, 1, 2 or 5 client writes); client bursts that begin after server payload was delivered are judged against the server's table. (2c) frequencies: 3000 minimal bursts per side and connection (IAT modes 0/1, biased/uniform); the relative frequency of every burst ending must lie within one-sided Hoeffding bounds (t = 0.1, failure probability e^-60 per inequality) of the normalised weights of the bridge's distribution, for the server and for the client after the seed. (3) a reference receiver decodes real client frames and checks their sizes. Non-trivial = a connection on which bursts were judged; distinct = parameter tuple.")
 	dir := o4.StateDir("c09")
 
 	// (1) arithmetic
@@ -701,6 +701,18 @@ func TestCheck(t *testing.T) {
 					refReceiver(c, r, params{iat: iat, biased: biased, seed: r.Sub("ref", iat, biased, k)})
 				}
 			})
+		}
+	}
+	// (2c) frequencies: the weights of the bridge's distribution, on both sides
+	for iat := 0; iat < 2; iat++ {
+		for _, biased := range []bool{false, true} {
+			iat, biased := iat, biased
+			for k := 0; k < r.Pick(2, 24); k++ {
+				k := k
+				r.Bubble(fmt.Sprintf("freq/iat%d/b%v/%03d", iat, biased, k), func(c *mon.Case) {
+					freqConn(c, r, dir, params{iat: iat, biased: biased, seed: r.Sub("freq", iat, biased, k)})
+				})
+			}
 		}
 	}
 	// every application write size 0..3000 for one seed per mode
